@@ -33,6 +33,9 @@ class Replay:
     def rewrite(self, code, config, file='test.js', files=None, parent_none=False):
         return self.call({'op': 'rewrite', 'code': code, 'file': file, 'config': config, 'files': files or {}, 'parent_none': parent_none})
 
+    def print_js(self, code, source_map, comment, config):
+        return self.call({'op': 'print_js', 'code': code, 'source_map': source_map, 'comment': comment, 'config': config})
+
     def normalize(self, code):
         return self.call({'op': 'normalize', 'code': code})
 
